@@ -39,3 +39,9 @@ chk('C16', 'exploration',
     'independent reading of the XML. The configuration space is finite and enumerated completely (exhaustive: true); genuine data defects found are listed in known_findings.json by mechanism key.',
     'Trusted: vlib/refmap.py (plain ElementTree reading of the same XML) and the qualifier rules in quals_of().',
     'invariants at quiescent points over live map objects, exhaustive', 'DESIGN.md 5 C16')
+chk('C02', 'exploration',
+    'Hundreds (quick) to thousands (thorough) of documents per run are generated from an independent reading of every selectable map and validated by the real x12n_document with the '
+    'error tree, the ERROR log stream and the acknowledgement captured; any error at any level, a false verdict, a logged failure or a non-accepting acknowledgement is a violation. '
+    'Reach counters of the walker/validator mechanisms and per-map segment-node coverage are part of the evidence. Held on the documents produced, inside the unambiguous sub-language of each map.',
+    'Trusted: vlib/gen_doc.py + vlib/refmap.py (conservative conformance rules in DESIGN 4.1); a rejection is read against the map before being called a defect.',
+    'runtime monitoring of the real validator on map-derived generated documents', 'DESIGN.md 5 C02')
